@@ -3,7 +3,6 @@ package hydraidego
 import (
 	"errors"
 	"reflect"
-	"strings"
 	"time"
 
 	"github.com/hydraide/hydraide/sdk/go/hydraidego/v3/hydraidepbgo"
@@ -100,7 +99,7 @@ func convertCatalogModelToKeyValuePair(model any, encoding EncodingFormat) (*hyd
 		// Check if the current field is tagged as the `value` field (via `hydraide:"value"`)
 		// This field holds the actual value of the Treasure.
 		// We detect its type using reflection and populate the corresponding proto field in KeyValuePair.
-		if key, ok := field.Tag.Lookup(tagHydrAIDE); ok && strings.Contains(key, tagValue) {
+		if key, ok := field.Tag.Lookup(tagHydrAIDE); ok && hydraideTagHead(key) == tagValue {
 
 			value := v.Field(i)
 			isEmpty := isFieldEmpty(value)
@@ -110,7 +109,7 @@ func convertCatalogModelToKeyValuePair(model any, encoding EncodingFormat) (*hyd
 				valueVoid := true
 				kvPair.VoidVal = &valueVoid
 			}
-			if strings.Contains(key, tagOmitempty) && isEmpty {
+			if hydraideTagHasOption(key, tagOmitempty) && isEmpty {
 				// If omitempty is set and the field is empty, skip setting the value
 				continue
 			}
@@ -129,10 +128,10 @@ func convertCatalogModelToKeyValuePair(model any, encoding EncodingFormat) (*hyd
 		// - If omitempty is set, zero values are skipped without error
 		// - Otherwise must be non-zero
 		// - Automatically converted to a `timestamppb.Timestamp` for protobuf
-		if key, ok := field.Tag.Lookup(tagHydrAIDE); ok && strings.Contains(key, tagExpireAt) {
+		if key, ok := field.Tag.Lookup(tagHydrAIDE); ok && hydraideTagHead(key) == tagExpireAt {
 
 			value := v.Field(i)
-			hasOmitempty := strings.Contains(key, tagOmitempty)
+			hasOmitempty := hydraideTagHasOption(key, tagOmitempty)
 
 			if hasOmitempty && isFieldEmpty(value) {
 				// If omitempty is set and the field is empty, skip setting expireAt
@@ -161,11 +160,11 @@ func convertCatalogModelToKeyValuePair(model any, encoding EncodingFormat) (*hyd
 		// Optional metadata indicating who or what created the Treasure.
 		// - Must be of type `string`
 		// - Empty values are ignored
-		if key, ok := field.Tag.Lookup(tagHydrAIDE); ok && strings.Contains(key, tagCreatedBy) {
+		if key, ok := field.Tag.Lookup(tagHydrAIDE); ok && hydraideTagHead(key) == tagCreatedBy {
 
 			value := v.Field(i)
 
-			if strings.Contains(key, tagOmitempty) && isFieldEmpty(value) {
+			if hydraideTagHasOption(key, tagOmitempty) && isFieldEmpty(value) {
 				// If omitempty is set and the field is empty, skip setting createdBy
 				continue
 			}
@@ -188,10 +187,10 @@ func convertCatalogModelToKeyValuePair(model any, encoding EncodingFormat) (*hyd
 		// - If omitempty is set, zero values are skipped without error
 		// - Otherwise must be non-zero
 		// - Converted to protobuf-compatible timestamp
-		if key, ok := field.Tag.Lookup(tagHydrAIDE); ok && strings.Contains(key, tagCreatedAt) {
+		if key, ok := field.Tag.Lookup(tagHydrAIDE); ok && hydraideTagHead(key) == tagCreatedAt {
 
 			value := v.Field(i)
-			hasOmitempty := strings.Contains(key, tagOmitempty)
+			hasOmitempty := hydraideTagHasOption(key, tagOmitempty)
 
 			if hasOmitempty && isFieldEmpty(value) {
 				continue
@@ -219,10 +218,10 @@ func convertCatalogModelToKeyValuePair(model any, encoding EncodingFormat) (*hyd
 		// - Must be of type `string`
 		// - If omitempty is set, empty values are skipped
 		// - Otherwise empty values are still allowed but not set
-		if key, ok := field.Tag.Lookup(tagHydrAIDE); ok && strings.Contains(key, tagUpdatedBy) {
+		if key, ok := field.Tag.Lookup(tagHydrAIDE); ok && hydraideTagHead(key) == tagUpdatedBy {
 
 			value := v.Field(i)
-			hasOmitempty := strings.Contains(key, tagOmitempty)
+			hasOmitempty := hydraideTagHasOption(key, tagOmitempty)
 
 			if hasOmitempty && isFieldEmpty(value) {
 				// If omitempty is set and the field is empty, skip setting updatedBy
@@ -247,10 +246,10 @@ func convertCatalogModelToKeyValuePair(model any, encoding EncodingFormat) (*hyd
 		// - If omitempty is set, zero values are skipped without error
 		// - Otherwise must be non-zero
 		// - Automatically converted to a `timestamppb.Timestamp` for protobuf transmission
-		if key, ok := field.Tag.Lookup(tagHydrAIDE); ok && strings.Contains(key, tagUpdatedAt) {
+		if key, ok := field.Tag.Lookup(tagHydrAIDE); ok && hydraideTagHead(key) == tagUpdatedAt {
 
 			value := v.Field(i)
-			hasOmitempty := strings.Contains(key, tagOmitempty)
+			hasOmitempty := hydraideTagHasOption(key, tagOmitempty)
 
 			if hasOmitempty && isFieldEmpty(value) {
 				// If omitempty is set and the field is empty, skip setting updatedAt
@@ -333,12 +332,12 @@ func convertProtoTreasureToCatalogModel(treasure *hydraidepbgo.Treasure, model a
 
 	for i := 0; i < t.NumField(); i++ {
 
-		if key, ok := t.Field(i).Tag.Lookup(tagHydrAIDE); ok && strings.Contains(key, tagKey) {
+		if key, ok := t.Field(i).Tag.Lookup(tagHydrAIDE); ok && hydraideTagHead(key) == tagKey {
 			v.Elem().Field(i).SetString(treasure.GetKey())
 			continue
 		}
 
-		if key, ok := t.Field(i).Tag.Lookup(tagHydrAIDE); ok && strings.Contains(key, tagValue) {
+		if key, ok := t.Field(i).Tag.Lookup(tagHydrAIDE); ok && hydraideTagHead(key) == tagValue {
 
 			field := v.Elem().Field(i)
 
@@ -351,35 +350,35 @@ func convertProtoTreasureToCatalogModel(treasure *hydraidepbgo.Treasure, model a
 
 		}
 
-		if key, ok := t.Field(i).Tag.Lookup(tagHydrAIDE); ok && strings.Contains(key, tagExpireAt) {
+		if key, ok := t.Field(i).Tag.Lookup(tagHydrAIDE); ok && hydraideTagHead(key) == tagExpireAt {
 			if treasure.ExpiredAt != nil {
 				v.Elem().Field(i).Set(reflect.ValueOf(treasure.ExpiredAt.AsTime()))
 			}
 			continue
 		}
 
-		if key, ok := t.Field(i).Tag.Lookup(tagHydrAIDE); ok && strings.Contains(key, tagCreatedBy) {
+		if key, ok := t.Field(i).Tag.Lookup(tagHydrAIDE); ok && hydraideTagHead(key) == tagCreatedBy {
 			if treasure.CreatedBy != nil {
 				v.Elem().Field(i).SetString(*treasure.CreatedBy)
 			}
 			continue
 		}
 
-		if key, ok := t.Field(i).Tag.Lookup(tagHydrAIDE); ok && strings.Contains(key, tagCreatedAt) {
+		if key, ok := t.Field(i).Tag.Lookup(tagHydrAIDE); ok && hydraideTagHead(key) == tagCreatedAt {
 			if treasure.CreatedAt != nil {
 				v.Elem().Field(i).Set(reflect.ValueOf(treasure.CreatedAt.AsTime()))
 			}
 			continue
 		}
 
-		if key, ok := t.Field(i).Tag.Lookup(tagHydrAIDE); ok && strings.Contains(key, tagUpdatedBy) {
+		if key, ok := t.Field(i).Tag.Lookup(tagHydrAIDE); ok && hydraideTagHead(key) == tagUpdatedBy {
 			if treasure.UpdatedBy != nil {
 				v.Elem().Field(i).SetString(*treasure.UpdatedBy)
 			}
 			continue
 		}
 
-		if key, ok := t.Field(i).Tag.Lookup(tagHydrAIDE); ok && strings.Contains(key, tagUpdatedAt) {
+		if key, ok := t.Field(i).Tag.Lookup(tagHydrAIDE); ok && hydraideTagHead(key) == tagUpdatedAt {
 			if treasure.UpdatedAt != nil {
 				v.Elem().Field(i).Set(reflect.ValueOf(treasure.UpdatedAt.AsTime()))
 			}
